@@ -128,7 +128,7 @@ theorem reqInv_move {cfg : Cfg} {K : Kind → Bool} {a b : Abs} (h : ReqInv cfg 
     · simp [pastNegotiation] at hc
     · exact h hr (.inr (.inl hc))
     · exact h hr (.inr (.inr hc))
-  case authOk => intro _ _; rfl
+  case authOk _ _ => intro _ _; rfl
   case reset _ =>
     intro _ hc
     rcases hc with hc | hc | hc
@@ -148,36 +148,37 @@ theorem reqInv_moves {cfg : Cfg} {K : Kind → Bool} {a b : Abs} (h : ReqInv cfg
 that a CAP ACK left `sasl` acknowledged earlier in this epoch -/
 def SaslQ (a : Abs) : Prop :=
   (a.ackSasl = true → a.acked = true) ∧ (isSaslState a.fsm = true → a.acked = true) ∧
-  (∀ k ∈ a.kinds, k.sasl = true → a.acked = true)
+  (∀ k ∈ a.kinds, k.sasl = true → a.acked = true) ∧ (a.saslAuth = true → a.acked = true)
 
 theorem saslQ_move {cfg : Cfg} {K : Kind → Bool} {a b : Abs} (h : SaslQ a) (m : Move cfg K a b) : SaslQ b := by
-  obtain ⟨h1, h2, h3⟩ := h
+  obtain ⟨h1, h2, h3, h4⟩ := h
   cases m
   case emit k hK hE hS =>
-    refine ⟨h1, h2, ?_⟩
+    refine ⟨h1, h2, ?_, h4⟩
     intro x hx hs
     simp only [List.mem_append, List.mem_singleton] at hx
     rcases hx with hx | rfl
     · exact h3 x hx hs
     · exact h2 (hS hs)
   case capEnd hf hm =>
-    refine ⟨h1, fun hc => by simp [isSaslState] at hc, ?_⟩
+    refine ⟨h1, fun hc => by simp [isSaslState] at hc, ?_, h4⟩
     intro x hx hs
     simp only [List.mem_append, List.mem_singleton] at hx
     rcases hx with hx | rfl
     · exact h3 x hx hs
     · simp [Kind.sasl] at hs
-  case saslStart to hto hack _ _ => exact ⟨h1, fun _ => h1 hack, h3⟩
+  case saslStart to hto hack _ _ => exact ⟨h1, fun _ => h1 hack, h3, h4⟩
   case saslFinish to hto =>
-    refine ⟨h1, ?_, h3⟩
+    refine ⟨h1, ?_, h3, h4⟩
     rcases hto with ⟨hf, rfl⟩ | ⟨hf, rfl⟩ <;> intro hc <;> simp [isSaslState] at hc
-  case startMotd _ _ => exact ⟨h1, fun hc => by simp [isSaslState] at hc, h3⟩
-  case endMotd _ _ => exact ⟨h1, fun hc => by simp [isSaslState] at hc, h3⟩
-  case shutdown => exact ⟨h1, fun hc => by simp [isSaslState] at hc, h3⟩
-  case ackGain _ => exact ⟨fun _ => rfl, fun _ => rfl, fun _ _ _ => rfl⟩
-  case ackLose => exact ⟨fun hc => by simp at hc, h2, h3⟩
+  case startMotd _ _ => exact ⟨h1, fun hc => by simp [isSaslState] at hc, h3, h4⟩
+  case endMotd _ _ => exact ⟨h1, fun hc => by simp [isSaslState] at hc, h3, h4⟩
+  case shutdown => exact ⟨h1, fun hc => by simp [isSaslState] at hc, h3, h4⟩
+  case authOk hs _ => exact ⟨h1, h2, h3, fun _ => h2 hs⟩
+  case ackGain _ => exact ⟨fun _ => rfl, fun _ => rfl, fun _ _ _ => rfl, fun _ => rfl⟩
+  case ackLose => exact ⟨fun hc => by simp at hc, h2, h3, h4⟩
   case reset _ =>
-    refine ⟨fun hc => by simp at hc, fun hc => by simp [isSaslState] at hc, ?_⟩
+    refine ⟨fun hc => by simp at hc, fun hc => by simp [isSaslState] at hc, ?_, fun hc => by simp at hc⟩
     intro x hx hs
     unfold connectKinds at hx
     simp only [List.mem_append, List.mem_cons, List.mem_singleton, List.not_mem_nil, or_false] at hx
@@ -188,7 +189,7 @@ theorem saslQ_move {cfg : Cfg} {K : Kind → Bool} {a b : Abs} (h : SaslQ a) (m 
       · simp only [List.mem_singleton] at hx; subst hx; simp [Kind.sasl] at hs
     · simp [Kind.sasl] at hs
     · simp [Kind.sasl] at hs
-  all_goals exact ⟨h1, h2, h3⟩
+  all_goals exact ⟨h1, h2, h3, h4⟩
 
 theorem saslQ_moves {cfg : Cfg} {K : Kind → Bool} {a b : Abs} (h : SaslQ a) (m : Moves cfg K a b) : SaslQ b := by
   induction m with
@@ -445,5 +446,35 @@ theorem sock_moves {cfg : Cfg} {K : Kind → Bool} (hK : K .connPerm = false) {a
   induction m with
   | refl => rfl
   | step _ m ih => exact (sock_move hK m).trans ih
+
+/-! ### `sasl_authenticated` is only raised inside a SASL state, by the handler of 903 -/
+
+theorem auth_move {cfg : Cfg} {K : Kind → Bool} {a b : Abs} (m : Move cfg K a b) (hb : b.saslAuth = true) :
+    a.saslAuth = true ∨ (isSaslState a.fsm = true ∧ K .authPerm = true) := by
+  cases m
+  case authOk h hp => exact .inr ⟨h, hp⟩
+  case reset _ => simp at hb
+  all_goals exact .inl hb
+
+/-- a handler that cannot enter a SASL state by itself raises `sasl_authenticated` only when it has the
+`authPerm` permission and the FSM already was in a SASL state when it started -/
+theorem auth_moves {cfg : Cfg} {K : Kind → Bool} (hK : K .startSasl = false) {a b : Abs} (m : Moves cfg K a b)
+    (hb : b.saslAuth = true) : a.saslAuth = true ∨ (isSaslState a.fsm = true ∧ K .authPerm = true) := by
+  induction m with
+  | refl => exact .inl hb
+  | step m0 m ih =>
+    rcases auth_move m hb with h | ⟨h1, h2⟩
+    · exact ih h
+    · exact .inr ⟨(noSaslEntry_moves hK m0 h1).1, h2⟩
+
+/-- a handler without the `authPerm` permission never raises `sasl_authenticated` -/
+theorem noAuth_moves {cfg : Cfg} {K : Kind → Bool} (hK : K .authPerm = false) {a b : Abs} (m : Moves cfg K a b)
+    (hb : b.saslAuth = true) : a.saslAuth = true := by
+  induction m with
+  | refl => exact hb
+  | step _ m ih =>
+    rcases auth_move m hb with h | ⟨_, h2⟩
+    · exact ih h
+    · rw [hK] at h2; cases h2
 
 end C08
